@@ -114,6 +114,10 @@ func EmitSchema(n *Node, ind string) (string, error) {
 		if n.Elem.Kind == "struct" {
 			return emitStruct(n.Elem, true, ind)
 		}
+		if n.Elem.Kind == "scalar" {
+			// pointer to a scalar: modelled as the scalar (nil is identified with the zero value)
+			return EmitSchema(n.Elem, ind)
+		}
 		return "SUnsupported", nil
 	case "slice":
 		e, err := EmitSchema(n.Elem, ind)
@@ -200,6 +204,12 @@ func EmitValue(n *Node, v reflect.Value) (string, error) {
 		}
 		return "CStruct [" + strings.Join(parts, "; ") + "]", nil
 	case "ptr":
+		if n.Elem.Kind == "scalar" {
+			if v.IsNil() {
+				return EmitValue(n.Elem, reflect.Zero(v.Type().Elem()))
+			}
+			return EmitValue(n.Elem, v.Elem())
+		}
 		if v.IsNil() {
 			return "CNil", nil
 		}
